@@ -292,10 +292,9 @@ class TorState(object):
             kw['dirport'],
         )
         router.flags = kw.get('flags', [])
-        if 'bandwidth' in kw:
-            router.bandwidth = kw['bandwidth']
-        if 'ip_v6' in kw:
-            router.ip_v6.extend(kw['ip_v6'])
+        # nothing is carried over from an earlier consensus
+        router.bandwidth = kw.get('bandwidth', 0)
+        router.ip_v6 = list(kw.get('ip_v6', []))
 
         if 'guard' in router.flags:
             self.guards[router.id_hex] = router
@@ -333,6 +332,9 @@ class TorState(object):
             self._network_status_parser.feed_line,
         )
         self._network_status_parser.done()
+        # names shared by several relays don't resolve to any of them
+        for name in [k for (k, v) in self.routers.items() if v is None]:
+            del self.routers[name]
 
         # update list of existing circuits
         cs = yield self.protocol.get_info_raw('circuit-status')
@@ -843,6 +845,8 @@ class TorState(object):
             self.all_routers = set()
             self.routers_by_hash = dict()
             self.routers_by_name = dict()
+            self.guards = dict()
+            self.authorities = dict()
             for line in data.split('\n'):
                 self._network_status_parser.feed_line(line)
             self._network_status_parser.done()
